@@ -463,18 +463,12 @@ class TriMesh(PointCloud):
         # it would have two "lonely" edges
         lonely_triangles = {}
         for edge, t_i in zip(edge_indices, tri_indices):
-            # Sorted the edge indices since we may see an edge (0, 1) and then
-            # see it again as (1, 0) when in fact that is the same edge
             sorted_edge = tuple(sorted(edge))
-            if sorted_edge not in lonely_triangles:
-                lonely_triangles[sorted_edge] = t_i
-            else:
-                # If we've already seen the edge the we will never see it again
-                # so we can just remove it from the candidate set
-                del lonely_triangles[sorted_edge]
+            lonely_triangles.setdefault(sorted_edge, []).append(t_i)
 
         mask = np.zeros(self.n_tris, dtype=bool)
-        mask[np.array(list(lonely_triangles.values()))] = True
+        lonely = [t[0] for t in lonely_triangles.values() if len(t) == 1]
+        mask[np.array(lonely, dtype=int)] = True
         return mask
 
     def edge_vectors(self):
